@@ -3,11 +3,13 @@
 #include <dlfcn.h>
 #include <limits.h>
 #include <algorithm>
+#include <memory>
 
 World *g_world = nullptr;
-Arena &thread_arena() { static thread_local Arena *a = nullptr; if (!a) a = new Arena(); return *a; }
+Arena &thread_arena() { static thread_local std::unique_ptr<Arena> a; if (!a) a.reset(new Arena()); return *a; }
 BFail g_bfail;
 bool announce_ops = false;
+Cur &cur() { static thread_local Cur c; return c; }
 
 // ------------------------------------------------------------------ internal symbols (weak: a refactor must not break the link)
 extern "C" {
@@ -76,9 +78,11 @@ void engine_global_init() {
 void World::viol(const char *props, const std::string &sig, const std::string &detail) {
     if (!judging(props)) return;
     if (viols.size() >= 16) return;
-    std::string s = prop + "/" + cur_kind + "/" + sig;
+    // races and scheduler verdicts are properties of the interleaving, not of the operation that happened to observe them
+    bool global = sig.compare(0, 10, "data-race/") == 0 || sig.compare(0, 10, "scheduler/") == 0;
+    std::string s = global ? prop + "/" + sig : prop + "/" + cur().kind + "/" + sig;
     for (auto &v : viols) if (v.sig == s) return;  // one per signature per run
-    viols.push_back(Violation{prop, s, detail, cur_op});
+    viols.push_back(Violation{prop, s, detail, cur().op});
     trace.adds("viol", s);
 }
 
@@ -119,9 +123,9 @@ static void destroy_slot(World &W, Slot &s) {
 }
 
 void world_end(World &W) {
-    W.cur_op = -2; W.cur_kind = "END"; W.cur_api = "destroy";
+    cur().op = -2; cur().kind = "END"; cur().api = "destroy";
     for (auto &s : W.slots) if (s.live) destroy_slot(W, s);
-    W.arena.release_all();
+    thread_arena().release_all();
     set_env(W, false, "");
     size_t now = own::live();
     W.trace.add("end.live", (i64) now - (i64) W.baseline_live);
@@ -298,7 +302,7 @@ static Delivered deliver(World &W, const Obj &o, const Slot &s, const Json &dl) 
             }
         }
         int al = e["al"].in(0);
-        char *p = (char *) W.arena.place(b.data(), b.size(), al == 16 ? Arena::RIGHT : (al & 15));
+        char *p = (char *) thread_arena().place(b.data(), b.size(), al == 16 ? Arena::RIGHT : (al & 15));
         if (((uintptr_t) p & 15) != 0) W.fault("MISALIGN");
         D.bufs.push_back(std::move(b));
         D.ptrs.push_back(p);
@@ -338,7 +342,7 @@ static void op_create(World &W, const Json &op) {
     Cfg c; c.be = op["be"].in(); c.k = op["k"].in(); c.m = op["m"].in(); c.hd = op["hd"].in(); c.w = op["w"].in(0); c.ct = op["ct"].in(1);
     struct ec_args a; memset(&a, 0, sizeof a);
     a.k = c.k; a.m = c.m; a.hd = c.hd; a.w = c.w; a.ct = (ec_checksum_type_t) c.ct;
-    W.cur_api = "instance_create";
+    cur().api = "instance_create";
     size_t live0 = own::live();
     arm_bfail(W, op);
     int d = liberasurecode_instance_create((ec_backend_id_t) c.be, &a);
@@ -349,7 +353,7 @@ static void op_create(World &W, const Json &op) {
         if (d > 0) {
             W.viol("C17", "init-failure-swallowed", "backend init reported failure but instance_create returned a descriptor");
             liberasurecode_instance_destroy(d);
-        } else if (own::live() != live0)
+        } else if (leaked(W, live0))
             W.viol("C17 C16", "init-failure-leak", "failed create retained " + std::to_string((long) own::live() - (long) live0) + " block(s)");
         return;
     }
@@ -363,7 +367,7 @@ static void op_create(World &W, const Json &op) {
             W.viol("C05 C13", std::string("create-accepted-unsupported/") + be_name(c.be), "a configuration that must be refused (k<1, m<0, k+m>32 or unsupported flat-XOR shape) was accepted: k=" + std::to_string(c.k) + " m=" + std::to_string(c.m) + " hd=" + std::to_string(c.hd));
     } else {
         if (d == 0) W.viol("C13 C14", "create-returned-zero", "instance_create returned 0: neither a descriptor nor an error");
-        if (own::live() != live0)
+        if (leaked(W, live0))
             W.viol("C13 C14 C16", "failed-create-leak", "refused create retained " + std::to_string((long) own::live() - (long) live0) + " block(s)");
         if (expect_ok && op.has("expect"))
             W.viol("C01 C05 C19 C13 C14 C17 C18", std::string("create-refused/") + be_name(c.be), "a supported configuration was refused: rc=" + std::to_string(d));
@@ -374,7 +378,7 @@ static void op_create(World &W, const Json &op) {
 static void op_destroy(World &W, const Json &op) {
     Slot &s = W.slots[(size_t) op["slot"].num() % World::NSLOT];
     if (!s.live) return;
-    W.cur_api = "instance_destroy";
+    cur().api = "instance_destroy";
     destroy_slot(W, s);
 }
 
@@ -390,24 +394,24 @@ static void op_put(World &W, const Json &op) {
     u64 len = (u64) op["len"].num();
     std::vector<u8> data = make_data(len, op["pat"].in(0), (u64) op["dseed"].num());
     int al = op["al"].in(16);
-    char *in = (char *) W.arena.place(data.data(), data.size(), al == 16 ? Arena::RIGHT : (al & 15));
+    char *in = (char *) thread_arena().place(data.data(), data.size(), al == 16 ? Arena::RIGHT : (al & 15));
     char **ed = nullptr, **ep = nullptr; u64 flen = 0;
     size_t live0 = own::live();
-    W.cur_api = "encode";
+    cur().api = "encode";
     arm_bfail(W, op);
     int rc = liberasurecode_encode(s.desc, in, len, &ed, &ep, &flen);
     bool fired = disarm_bfail(W);
     W.trace.add("put.rc", rc);
     if (fired) {
         if (rc >= 0) { W.viol("C17", "encode-failure-swallowed", "backend encode failed, public rc=" + std::to_string(rc)); if (rc == 0) liberasurecode_encode_cleanup(s.desc, ed, ep); }
-        else if (own::live() != live0) W.viol("C17 C16", "encode-failure-leak", "failed encode retained " + std::to_string((long) own::live() - (long) live0) + " block(s)");
-        W.arena.release_all();
+        else if (leaked(W, live0)) W.viol("C17 C16", "encode-failure-leak", "failed encode retained " + std::to_string((long) own::live() - (long) live0) + " block(s)");
+        thread_arena().release_all();
         return;
     }
     if (rc != 0) {
         W.viol("C01 C05 C19 C13 C14 C17 C18", std::string("encode-failed/") + be_name(s.cfg.be), "encode of " + std::to_string(len) + " bytes returned " + std::to_string(rc));
-        if (rc < 0 && own::live() != live0) W.viol("C16 C13", "encode-error-leak", "failed encode retained blocks");
-        W.arena.release_all();
+        if (rc < 0 && leaked(W, live0)) W.viol("C16 C13", "encode-error-leak", "failed encode retained blocks");
+        thread_arena().release_all();
         return;
     }
     int k = s.cfg.k, m = s.cfg.m, n = k + m;
@@ -448,10 +452,10 @@ static void op_put(World &W, const Json &op) {
         }
     }
     if (bytes_differ(in, data.data(), len)) W.viol("C15", "encode/input-modified", "encode wrote to its input");
-    W.cur_api = "encode_cleanup";
+    cur().api = "encode_cleanup";
     int crc = liberasurecode_encode_cleanup(s.desc, ed, ep);
     if (crc != 0) W.viol("C16 C13", "encode-cleanup-failed", "rc=" + std::to_string(crc));
-    if (own::live() != live0)
+    if (leaked(W, live0))
         W.viol("C16", "encode-cleanup-leak", "encode+encode_cleanup left " + std::to_string((long) own::live() - (long) live0) + " block(s)");
     // --- store
     bool same_shape = o.valid && o.flen == flen && o.dev.size() == (size_t) n;
@@ -463,7 +467,7 @@ static void op_put(World &W, const Json &op) {
         Json one = Json::arr(); one.push(st[i]);
         apply_fx(W, o.dev[dev], one, &o, dev);
     }
-    W.arena.release_all();
+    thread_arena().release_all();
 }
 
 static void judge_consume_errors(World &W, const char *api, int rc, const Delivered &D, int num, int k, u64 flen) {
@@ -483,10 +487,10 @@ static void op_get(World &W, const Json &op) {
     Delivered D = deliver(W, o, s, op["dl"]);
     int num = (int) D.ptrs.size();
     int force = op["force"].in(0);
-    if (!D.sizes_sane) { W.probe("get.skipped-header-lies-about-sizes"); W.arena.release_all(); return; }
+    if (!D.sizes_sane) { W.probe("get.skipped-header-lies-about-sizes"); thread_arena().release_all(); return; }
     char *out = nullptr; u64 outlen = 0;
     size_t live0 = own::live();
-    W.cur_api = "decode";
+    cur().api = "decode";
     arm_bfail(W, op);
     long inj0 = isal_injected_failures();
     int rc = liberasurecode_decode(s.desc, D.ptrs.data(), num, o.flen, force, &out, &outlen);
@@ -531,15 +535,15 @@ static void op_get(World &W, const Json &op) {
         }
     }
     if (rc == 0) {
-        W.cur_api = "decode_cleanup";
+        cur().api = "decode_cleanup";
         int c = liberasurecode_decode_cleanup(s.desc, out);
         if (c != 0) W.viol("C16 C13", "decode-cleanup-failed", "rc=" + std::to_string(c));
     } else if (out != nullptr && own::owns(out)) {
         W.viol("C16 C17 C02", "decode-error-returned-buffer", "decode failed but left an allocated buffer in *out_data");
     }
-    if (own::live() != live0)
+    if (leaked(W, live0))
         W.viol(rc == 0 ? "C16" : "C16 C17 C13", rc == 0 ? "decode-cleanup-leak" : "decode-error-leak", "decode (rc=" + std::to_string(rc) + ") left " + std::to_string((long) own::live() - (long) live0) + " block(s)");
-    W.arena.release_all();
+    thread_arena().release_all();
 }
 
 static void op_repair(World &W, const Json &op) {
@@ -551,12 +555,12 @@ static void op_repair(World &W, const Json &op) {
     Delivered D = deliver(W, o, s, op["dl"]);
     int num = (int) D.ptrs.size();
     int dest = op["dest"].in();
-    if (!D.sizes_sane) { W.probe("repair.skipped-header-lies-about-sizes"); W.arena.release_all(); return; }
+    if (!D.sizes_sane) { W.probe("repair.skipped-header-lies-about-sizes"); thread_arena().release_all(); return; }
     int al = op["oal"].in(0);
-    u8 *outb = W.arena.place(nullptr, o.flen, al == 16 ? Arena::RIGHT : (al & 15), true);
+    u8 *outb = thread_arena().place(nullptr, o.flen, al == 16 ? Arena::RIGHT : (al & 15), true);
     memset(outb, 0xEE, o.flen);
     size_t live0 = own::live();
-    W.cur_api = "reconstruct_fragment";
+    cur().api = "reconstruct_fragment";
     arm_bfail(W, op);
     long inj0 = isal_injected_failures();
     int rc = liberasurecode_reconstruct_fragment(s.desc, D.ptrs.data(), num, o.flen, dest, (char *) outb);
@@ -602,7 +606,7 @@ static void op_repair(World &W, const Json &op) {
                 if (rc == 0 && !have_dest) {
                     // a fragment the instance just reconstructed validates as good (C12) and carries a right CRC (C10)
                     std::vector<u8> cp(outb, outb + o.flen);
-                    char *p = (char *) W.arena.place(cp.data(), cp.size(), 0);
+                    char *p = (char *) thread_arena().place(cp.data(), cp.size(), 0);
                     if (is_invalid_fragment(s.desc, p) != 0) W.viol("C12 C10", "reconstructed-fragment-invalid", "fragment " + std::to_string(dest) + " just reconstructed does not validate");
                 }
             } else {
@@ -614,9 +618,9 @@ static void op_repair(World &W, const Json &op) {
             judge_consume_errors(W, "reconstruct", rc, D, num, 0, o.flen);
         }
     }
-    if (own::live() != live0)
+    if (leaked(W, live0))
         W.viol(rc == 0 ? "C16" : "C16 C17 C13", rc == 0 ? "reconstruct-leak" : "reconstruct-error-leak", "reconstruct (rc=" + std::to_string(rc) + ") left " + std::to_string((long) own::live() - (long) live0) + " block(s)");
-    W.arena.release_all();
+    thread_arena().release_all();
 }
 
 static void op_plan(World &W, const Json &op) {
@@ -630,12 +634,12 @@ static void op_plan(World &W, const Json &op) {
     for (int v : op["X"].intvec()) { int x = ((v % n) + n) % n; if (seen.insert(x).second) X.push_back(x); }
     if (R.empty()) return;
     std::vector<int> Rl = R, Xl = X; Rl.push_back(-1); Xl.push_back(-1);
-    int *Rp = (int *) W.arena.place((u8 *) Rl.data(), Rl.size() * 4, Arena::RIGHT);
-    int *Xp = (int *) W.arena.place((u8 *) Xl.data(), Xl.size() * 4, Arena::RIGHT);
+    int *Rp = (int *) thread_arena().place((u8 *) Rl.data(), Rl.size() * 4, Arena::RIGHT);
+    int *Xp = (int *) thread_arena().place((u8 *) Xl.data(), Xl.size() * 4, Arena::RIGHT);
     std::vector<int> init(n + 1, 0x7e7e7e7e);
-    int *Np = (int *) W.arena.place((u8 *) init.data(), init.size() * 4, Arena::RIGHT, true);
+    int *Np = (int *) thread_arena().place((u8 *) init.data(), init.size() * 4, Arena::RIGHT, true);
     size_t live0 = own::live();
-    W.cur_api = "fragments_needed";
+    cur().api = "fragments_needed";
     arm_bfail(W, op);
     int rc = liberasurecode_fragments_needed(s.desc, Rp, Xp, Np);
     bool fired = disarm_bfail(W);
@@ -643,12 +647,12 @@ static void op_plan(World &W, const Json &op) {
     std::vector<int> ans; bool terminated = false;
     for (int i = 0; i <= n; i++) { if (Np[i] == -1) { terminated = true; break; } ans.push_back(Np[i]); }
     if (rc == 0) for (int v : ans) W.trace.add("plan.n", v);
-    if (own::live() != live0) W.viol("C16 C17 C13", "fragments-needed-leak", "fragments_needed left " + std::to_string((long) own::live() - (long) live0) + " block(s)");
+    if (leaked(W, live0)) W.viol("C16 C17 C13", "fragments-needed-leak", "fragments_needed left " + std::to_string((long) own::live() - (long) live0) + " block(s)");
     if (fired) {
         if (rc >= 0) W.viol("C17", "fragments-needed-failure-swallowed", "backend fragments_needed failed, public rc=" + std::to_string(rc));
-        W.arena.release_all(); return;
+        thread_arena().release_all(); return;
     }
-    if (!coded_backend(s.cfg.be)) { W.arena.release_all(); return; }
+    if (!coded_backend(s.cfg.be)) { thread_arena().release_all(); return; }
     int tot = (int) (R.size() + X.size());
     bool tol = s.cfg.be == EC_BACKEND_FLAT_XOR_HD ? tot < s.cfg.hd : tot <= s.cfg.m;
     std::string who = std::string(be_name(s.cfg.be)) + (tol ? "/within" : "/beyond");
@@ -685,11 +689,11 @@ static void op_plan(World &W, const Json &op) {
     if (rc == 0 && bad.empty() && op["confirm"].in(0) && o.valid && o.cfg.same(s.cfg)) {
         if (o.legacy != env_legacy(W)) set_env(W, o.legacy, "1");
         for (int r : R) {
-            W.arena.release_all();
+            thread_arena().release_all();
             std::vector<char *> fr;
-            for (int v : ans) fr.push_back((char *) W.arena.place(o.orig[v].data(), o.flen, Arena::RIGHT));
-            u8 *outb = W.arena.place(nullptr, o.flen, 0, true);
-            W.cur_api = "reconstruct_fragment(confirm)";
+            for (int v : ans) fr.push_back((char *) thread_arena().place(o.orig[v].data(), o.flen, Arena::RIGHT));
+            u8 *outb = thread_arena().place(nullptr, o.flen, 0, true);
+            cur().api = "reconstruct_fragment(confirm)";
             int rr = liberasurecode_reconstruct_fragment(s.desc, fr.data(), (int) fr.size(), o.flen, r, (char *) outb);
             W.trace.add("plan.confirm.rc", rr);
             if (rr == 0) {
@@ -705,7 +709,7 @@ static void op_plan(World &W, const Json &op) {
             }
         }
     }
-    W.arena.release_all();
+    thread_arena().release_all();
 }
 
 static bool metadata_call_safe(const std::vector<u8> &b) {
@@ -730,11 +734,11 @@ static void op_scrub(World &W, const Json &op) {
     apply_fx(W, b, op["fx"], &o, dev);
     if (!metadata_call_safe(b)) { W.probe("scrub.skipped-unsafe-size"); return; }
     int al = op["al"].in(16);
-    char *p = (char *) W.arena.place(b.data(), b.size(), al == 16 ? Arena::RIGHT : (al & 15));
+    char *p = (char *) thread_arena().place(b.data(), b.size(), al == 16 ? Arena::RIGHT : (al & 15));
     ref::InstView I = inst_view(W, s);
     bool acc = ref::accept_meta(b.data());
     fragment_metadata_t md; memset(&md, 0, sizeof md);
-    W.cur_api = "get_fragment_metadata";
+    cur().api = "get_fragment_metadata";
     int rc = liberasurecode_get_fragment_metadata(p, &md);
     W.trace.add("scrub.rc", rc);
     W.probe(acc ? "scrub.ref-accept" : "scrub.ref-reject");
@@ -751,7 +755,7 @@ static void op_scrub(World &W, const Json &op) {
         W.probe(mm ? "scrub.mismatch" : "scrub.match");
     }
     // C12: per-fragment validation verdict
-    W.cur_api = "is_invalid_fragment";
+    cur().api = "is_invalid_fragment";
     int inv = is_invalid_fragment(s.desc, p);
     W.trace.add("scrub.inv", inv);
     bool want = ref::invalid(I, b.data(), b.size());
@@ -768,9 +772,9 @@ static void op_scrub(World &W, const Json &op) {
     // C11: the opposite-endian twin of this fragment means the same
     if (op["twin"].in(0) && acc && !swapped) {
         std::vector<u8> t = b; to_foreign_endian(t); W.fault("FOREIGN_ENDIAN");
-        char *q = (char *) W.arena.place(t.data(), t.size(), al == 16 ? Arena::RIGHT : (al & 15));
+        char *q = (char *) thread_arena().place(t.data(), t.size(), al == 16 ? Arena::RIGHT : (al & 15));
         fragment_metadata_t mt; memset(&mt, 0, sizeof mt);
-        W.cur_api = "get_fragment_metadata(twin)";
+        cur().api = "get_fragment_metadata(twin)";
         int rt = liberasurecode_get_fragment_metadata(q, &mt);
         W.trace.add("twin.rc", rt);
         if (rt != rc) W.viol("C11", "twin/verdict-differs", "native rc=" + std::to_string(rc) + " twin rc=" + std::to_string(rt));
@@ -794,7 +798,7 @@ static void op_scrub(World &W, const Json &op) {
         if ((hv_n != 0) != (hv_t != 0)) W.viol("C11", "twin/header-validation-differs", "native " + std::to_string(hv_n) + " twin " + std::to_string(hv_t));
         W.probe("twin.compared");
     }
-    W.arena.release_all();
+    thread_arena().release_all();
 }
 
 static void op_vsm(World &W, const Json &op) {
@@ -812,11 +816,11 @@ static void op_vsm(World &W, const Json &op) {
         if (b.size() < ref::HDR) continue;
         if (b[ref::OFF_MISMATCH] > 1) judged = false;
         if (ref::stripe_bad(I, b.data())) anybad = true;
-        ptrs.push_back((char *) W.arena.place(b.data(), b.size(), Arena::RIGHT));
+        ptrs.push_back((char *) thread_arena().place(b.data(), b.size(), Arena::RIGHT));
     }
-    if (ptrs.empty()) { W.arena.release_all(); return; }
-    if (!s.bever_known && s.cfg.be != EC_BACKEND_NULL) { W.arena.release_all(); return; }
-    W.cur_api = "verify_stripe_metadata";
+    if (ptrs.empty()) { thread_arena().release_all(); return; }
+    if (!s.bever_known && s.cfg.be != EC_BACKEND_NULL) { thread_arena().release_all(); return; }
+    cur().api = "verify_stripe_metadata";
     int rc = liberasurecode_verify_stripe_metadata(s.desc, ptrs.data(), (int) ptrs.size());
     W.trace.add("vsm.rc", rc);
     if (judged) {
@@ -824,19 +828,19 @@ static void op_vsm(World &W, const Json &op) {
         if (anybad && rc >= 0) W.viol("C12", "stripe/bad-fragment-accepted", "a fragment fails the index/backend-id/backend-version/mismatch-flag test, verify_stripe_metadata returned " + std::to_string(rc));
         if (!anybad && rc != 0) W.viol("C12", "stripe/good-stripe-rejected", "no fragment fails the stripe tests, verify_stripe_metadata returned " + std::to_string(rc));
     }
-    W.arena.release_all();
+    thread_arena().release_all();
 }
 
 void exec_op_misc(World &W, const Json &op, const std::string &kind);  // history.cc
 
 void exec_op(World &W, const Json &op, int index) {
-    W.cur_op = index;
-    W.cur_kind = op["op"].str();
-    W.cur_api = "";
-    if (W.announce) { printf("AT op=%d kind=%s\n", index, W.cur_kind.c_str()); fflush(stdout); }
+    cur().op = index;
+    cur().kind = op["op"].str();
+    cur().api = "";
+    if (W.announce) { printf("AT op=%d kind=%s\n", index, cur().kind.c_str()); fflush(stdout); }
     W.steps++;
-    W.trace.adds("op", W.cur_kind);
-    const std::string &k = W.cur_kind;
+    W.trace.adds("op", cur().kind);
+    const std::string &k = cur().kind;
     if (k == "CREATE") op_create(W, op);
     else if (k == "DESTROY") op_destroy(W, op);
     else if (k == "PUT") op_put(W, op);
@@ -869,5 +873,10 @@ Json run_plan(const Json &plan, bool verbose, std::vector<std::string> *log) {
     Json f = Json::obj(); for (auto &kv : W.faults) f.set(kv.first, (i64) kv.second); r.set("faults", f);
     Json p = Json::obj(); for (auto &kv : W.probes) p.set(kv.first, (i64) kv.second); r.set("probes", p);
     r.set("syslog", (i64) g_syslog_calls);
+    if (plan.has("threads")) {
+        r.set("yields", (i64) W.sched_yields).set("switches", (i64) W.sched_switches);
+        r.set("decisions", Json::ints(W.sched_decisions));
+        r.set("sh", hex64(fnv1a(W.sched_decisions.data(), W.sched_decisions.size() * sizeof(int))));
+    }
     return r;
 }
